@@ -465,7 +465,7 @@ def _is_sym(x):
 
 def _has_sym(*xs):
     for x in xs:
-        if _is_sym(x):
+        if _is_sym(x) or isinstance(x, (SymSeq, SymRange)):
             return True
         if isinstance(x, (tuple, list)) and any(_has_sym(y) for y in x):
             return True
@@ -673,7 +673,7 @@ def _shape_tuple(shape):
 
 def sym_full(shape, fill_value, dtype=None, **kw):
     shape = _shape_tuple(shape)
-    if not _has_sym(shape, fill_value):
+    if not _has_sym(shape, fill_value) and not core.active():
         return _np.full(shape, fill_value, dtype=dtype, **kw)
     fv = as_symarr(fill_value)
     k = fv.kind if dtype is None else _kind_of_type(dtype)
@@ -687,7 +687,7 @@ def sym_full(shape, fill_value, dtype=None, **kw):
 
 def sym_zeros(shape, dtype=float, **kw):
     shape = _shape_tuple(shape)
-    if not _has_sym(shape):
+    if not _has_sym(shape) and not core.active():
         return _np.zeros(shape, dtype=dtype, **kw)
     k = _kind_of_type(dtype)
     z = _const_expr(0, k)
@@ -696,7 +696,7 @@ def sym_zeros(shape, dtype=float, **kw):
 
 def sym_ones(shape, dtype=float, **kw):
     shape = _shape_tuple(shape)
-    if not _has_sym(shape):
+    if not _has_sym(shape) and not core.active():
         return _np.ones(shape, dtype=dtype, **kw)
     k = _kind_of_type(dtype)
     o = _const_expr(1, k)
@@ -789,7 +789,7 @@ class ndarray_shim(metaclass=_NdarrayMeta):
 
     def __new__(cls, shape, dtype=float, **kw):
         shape = _shape_tuple(shape)
-        if not _has_sym(shape):
+        if not _has_sym(shape) and not core.active():
             return _np.ndarray(shape, dtype=dtype, **kw)
         return SymArr.input(f"uninit{next(_uninit)}", shape, _kind_of_type(dtype))
 
@@ -963,15 +963,104 @@ def _write_view(target: SymArr, value):
     buf.version += 1
 
 
-class SymSeq:
-    """A sequence of ints (positions) of possibly symbolic length: used as an index list.
-    fn: z3 Int -> z3 Int ; inv: z3 Int -> z3 Int (choice function: a position j with fn(j)=x if any)"""
+_seq_ids = itertools.count()
 
-    def __init__(self, n, fn, inv=None, name="seq"):
+
+class SymSeq(list):
+    """A list of ints (positions) of symbolic length n >= 1, given by an element function.
+    It *is* a `list` for isinstance purposes (the real code tests isinstance(ids, list)); its
+    carrier list is empty and every list method that would look at it is guarded.
+
+    fn(j): element at j (z3 Int -> z3 Int).  inv(x): a position j with fn(j) == x if there is one."""
+
+    def __init__(self, n, fn, inv=None, name=None):
+        super().__init__()
         self.n = n
         self.fn = fn
         self.inv = inv
-        self.name = name
+        self.name = name or f"seq{next(_seq_ids)}"
+
+    @staticmethod
+    def define(n, body_of, facts_of=None, name=None, also_at=()):
+        """sequence seq(j) = body_of(j) for 0 <= j < n as an uninterpreted function with trigger facts,
+        plus a choice function for the inverse"""
+        name = name or f"seq{next(_seq_ids)}"
+        f = z3.Function(f"{name}", z3.IntSort(), z3.IntSort())
+        g = z3.Function(f"{name}_inv", z3.IntSort(), z3.IntSort())
+        zn = _zsize(n)
+        c = ctx()
+
+        def trig(j):
+            rng = z3.And(j >= 0, j < zn)
+            parts = [f(j) == body_of(j)]
+            if facts_of is not None:
+                parts += list(facts_of(j))
+            e = f(j)
+            parts += [g(e) >= 0, g(e) < zn, f(g(e)) == e]
+            return z3.Implies(rng, z3.And(*parts))
+
+        c.add_trigger(name, trig)
+        # further instantiation points: (symbol, args -> position term), e.g. pos_S(x) for a sequence
+        # defined over the item list S: whoever asks "is x in S" gets the sequence's facts at that position
+        for sym, pos_of in also_at:
+            c.add_trigger(sym, (lambda pos_of: (lambda *args: trig(pos_of(*args))))(pos_of))
+        return SymSeq(n, lambda j: f(to_int(j)), inv=lambda x: g(to_int(x)), name=name)
+
+    def __symlen__(self):
+        return self.n
+
+    def __len__(self):
+        if isinstance(self.n, int):
+            return self.n
+        raise Unsupported("len() of symbolic sequence outside shimmed module")
+
+    def __iter__(self):
+        raise Unsupported("iteration over symbolic-length sequence")
+
+    def __getitem__(self, j):
+        if isinstance(j, slice):
+            raise Unsupported("slice of symbolic sequence")
+        return wrap(self.fn(to_int(j)))
+
+    def __bool__(self):
+        return True
+
+    def __eq__(self, o):
+        return o is self
+
+    __hash__ = object.__hash__
+
+    def __repr__(self):
+        return f"SymSeq({self.name}, n={self.n})"
+
+    def __copy__(self):
+        return self
+
+    def __deepcopy__(self, memo):
+        return self
+
+
+def _guard_list_methods():
+    for nm in ("append", "extend", "insert", "remove", "pop", "index", "count", "sort", "reverse", "__contains__", "__setitem__", "__delitem__", "__add__", "__mul__", "__reversed__"):
+        def mk(nm):
+            def guard(self, *a, **k):
+                raise Unsupported(f"list.{nm} on symbolic sequence")
+            return guard
+        setattr(SymSeq, nm, mk(nm))
+
+
+_guard_list_methods()
+
+
+class SymRange:
+    def __init__(self, n):
+        self.n = n
+
+    def __symlen__(self):
+        return self.n
+
+    def __iter__(self):
+        raise Unsupported("range() over symbolic bound (loop needs an invariant)")
 
 
 def _adv_parts(a: SymArr, key):
@@ -1003,7 +1092,11 @@ def _adv_parts(a: SymArr, key):
             if arr.kind != "int":
                 raise IndexError("arrays used as indices must be of integer type")
             fz = arr.frozen()
-            parts.append(("idx", fz, arr.shape))
+            seq = getattr(k, "_seq", None)
+            if seq is not None:
+                parts.append(("idx", fz, arr.shape, seq))
+            else:
+                parts.append(("idx", fz, arr.shape))
     return parts
 
 
@@ -1724,7 +1817,7 @@ def sh_len(x):
 
 class _IntMeta(type):
     def __instancecheck__(cls, inst):
-        return isinstance(inst, builtins.int)
+        return isinstance(inst, (builtins.int, SymInt))
 
     def __subclasscheck__(cls, sub):
         return issubclass(sub, builtins.int)
@@ -1783,8 +1876,85 @@ def sh_min(*args, **kw):
 
 def sh_range(*args):
     if any(isinstance(a, SymInt) for a in args):
-        raise Unsupported("range() over symbolic bound (loop needs an invariant)")
+        if len(args) == 1:
+            return SymRange(args[0])
+        raise Unsupported("range(a, b) over symbolic bounds (loop needs an invariant)")
     return builtins.range(*args)
 
 
-BUILTIN_SHIMS = {"len": sh_len, "int": sh_int, "abs": sh_abs, "max": sh_max, "min": sh_min, "range": sh_range}
+class _ListMeta(type):
+    def __instancecheck__(cls, inst):
+        return isinstance(inst, builtins.list)
+
+    def __subclasscheck__(cls, sub):
+        return issubclass(sub, builtins.list)
+
+
+class sh_list(metaclass=_ListMeta):
+    def __new__(cls, it=()):
+        if isinstance(it, SymRange):
+            ident = lambda j: to_int(j)
+            return SymSeq(it.n, ident, inv=ident, name="range")
+        if isinstance(it, SymSeq):
+            return it
+        return builtins.list(it)
+
+
+class SymItemSet:
+    """set(<symbolic item list>): only subset / superset tests are supported"""
+
+    def __init__(self, items):
+        self.items = items
+
+    def issubset(self, other):
+        return self.items.subset_of(other)
+
+    def issuperset(self, other):
+        return other.subset_of(self.items)
+
+
+class _SetMeta(type):
+    def __instancecheck__(cls, inst):
+        return isinstance(inst, builtins.set)
+
+
+class sh_set(metaclass=_SetMeta):
+    def __new__(cls, it=()):
+        if hasattr(it, "subset_of"):
+            return SymItemSet(it)
+        return builtins.set(it)
+
+
+def fvc_listcomp(f, it):
+    """[f(x) for x in it]  -- the comprehension helper that rewritten functions call.
+    For a symbolic-length sequence the body is evaluated once at a generic position J:
+      * a path on which f raises is the path 'some element raises' (J is the witness),
+      * a path on which f returns is the path 'every element returns': the decisions taken for J
+        become facts for every position (instantiated by trigger), and the result is the sequence
+        j -> value(j)."""
+    if not (hasattr(it, "__symlen__") and isinstance(it.__symlen__(), SymInt)):
+        return [f(x) for x in it]
+    c = ctx()
+    n = it.__symlen__()
+    J = c.fresh("J", "int")
+    c.assume(z3.And(J >= 0, J < n.e))
+    k0, a0 = len(c.pc_log), len(c.assume_log)
+    r = f(it[wrap(J)])
+    phi = list(c.pc_log[k0:]) + list(c.assume_log[a0:])
+    if not isinstance(r, (int, SymInt)) or isinstance(r, bool):
+        raise Unsupported("comprehension over symbolic sequence with non-integer elements")
+    expr = to_int(r)
+
+    def body_of(j):
+        return z3.substitute(expr, (J, j))
+
+    def facts_of(j):
+        return [z3.substitute(p, (J, j)) for p in phi]
+
+    also = []
+    if hasattr(it, "_pos") and hasattr(it, "name"):
+        also.append((f"pos_{it.name}", (lambda pos: (lambda x: pos(x)))(it._pos)))
+    return SymSeq.define(n, body_of, facts_of, also_at=also)
+
+
+BUILTIN_SHIMS = {"len": sh_len, "int": sh_int, "abs": sh_abs, "max": sh_max, "min": sh_min, "range": sh_range, "list": sh_list, "set": sh_set, "__fvc_listcomp__": fvc_listcomp}
